@@ -119,6 +119,50 @@ let show_api (r : ((M.nat * M.nat) * M.z) list M.res) =
   | M.Ok l -> String.concat "" (List.map (fun t -> " " ^ show_triple t) l)
   | M.Panic _ -> " !panic" | M.UB _ -> " !ub" | M.OutOfFuel -> " !fuel" | M.Err _ -> " !err"
 
+(* ---- the property text as an oracle: extracted Spec on (patterns, haystack) ---- *)
+let show_triples l = String.concat "" (List.map (fun t -> " " ^ show_triple t) l)
+let spec_pvs (c : case) : (M.n list * M.z) list option =
+  let vt = vtype_of c.vt in
+  match c.entry with
+  | "build" | "new" ->
+    let rec go i = function
+      | [] -> Some []
+      | (p, _) :: r ->
+        (match M.vt_conv vt (nat_of_int i), go (i + 1) r with
+         | Some v, Some l -> Some ((nlist p, v) :: l)
+         | _ -> None) in
+    go 0 c.pats
+  | _ -> Some (List.map (fun (p, v) -> (nlist p, mz_of_z (Z.of_string v))) c.pats)
+let spec_build (c : case) =
+  let ps = List.map (fun (p, _) -> nlist p) c.pats in
+  let r = match c.entry with
+    | "build" | "new" -> M.spec_build_error_conv (M.vt_conv (vtype_of c.vt)) ps
+    | _ -> M.spec_build_error ps in
+  match r with
+  | None -> pr "SPECBUILD ok\n"
+  | Some k -> pr "SPECBUILD err:%s\n" (err_name k)
+let spec_searches (c : case) =
+  match spec_pvs c with
+  | None -> ()
+  | Some pvs ->
+    let kind = if c.entry = "new" || c.entry = "with_values" then 0 else c.kind in
+    List.iteri (fun j h ->
+        let hn = nlist h in
+        if kind = 0 then begin
+          pr "SPECOVL %d%s\n" j (show_triples (M.spec_overlapping pvs hn));
+          pr "SPECFIND %d%s\n" j (show_triples (M.spec_find pvs hn));
+          pr "SPECNOS %d%s\n" j (show_triples (M.spec_nosuffix pvs hn))
+        end else if kind = 1 then
+          pr "SPECLEFT %d%s\n" j (show_triples (M.spec_lml pvs hn))
+        else
+          pr "SPECLEFT %d%s\n" j (show_triples (M.spec_lmf pvs hn))) c.hays;
+    let eff = if kind = 2 then M.effective pvs else pvs in
+    (* states are counted in the automaton's own label alphabet: bytes, or characters for cw *)
+    let eff = if c.var = "cw" then
+        List.map (fun (p, v) -> ((match M.chars_of p with Some cs -> cs | None -> p), v)) eff
+      else eff in
+    pr "SPECSTATES %d\n" (1 + List.length (M.distinct_nonempty_prefixes eff))
+
 (* ---- byte-wise ---- *)
 let bw_searches (a : M.z M.bw_automaton) (c : case) pre =
   let sget = M.bw_sget a and oget = M.bw_oget a and ns = M.bw_nslots a in
@@ -342,13 +386,17 @@ let run_cw (c : case) =
     if String.contains c.ops 'M' then pr "THREADS 1 1\n"
 
 let () =
-  let ic = open_in Sys.argv.(1) in
+  let spec_only = Array.length Sys.argv > 2 && Sys.argv.(1) = "--spec-only" in
+  let ic = open_in (if spec_only then Sys.argv.(2) else Sys.argv.(1)) in
   let cases = parse_cases ic in
   close_in ic;
   List.iter (fun c ->
       Buffer.clear buf;
       pr "CASE %s\n" c.id;
-      (try if c.var = "bw" then run_bw c else run_cw c
-       with Stack_overflow -> pr "!stackoverflow\n");
+      if not spec_only then
+        (try if c.var = "bw" then run_bw c else run_cw c
+         with Stack_overflow -> pr "!stackoverflow\n");
+      (try spec_build c; if String.contains c.ops 'S' then spec_searches c
+       with Stack_overflow -> pr "SPEC!stackoverflow\n");
       pr "END %s\n" c.id;
       print_string (Buffer.contents buf); flush stdout) cases
